@@ -319,10 +319,23 @@ def observation(cfg, r):
 # exploration of one driver: racy-set fixpoint, iterated bound, fan-out
 # ---------------------------------------------------------------------------------------------------
 
+class Kit:
+    """what a family of drivers provides to the generic exploration loop"""
+
+    def __init__(self, make_driver, judge, observation, src):
+        self.make_driver = make_driver
+        self.judge = judge
+        self.observation = observation
+        self.src = src if isinstance(src, (list, tuple)) else [src]
+
+
 def explore_config(cfg, pbound, ebound=0, want_frontier=None, max_execs=None, use_cache=True, parallel=True,
-                   budget_s=None):
-    """-> dict(stats, violations [(prop, sig, what, replay)], observations, racy, labels, bound)"""
-    driver = make_driver(cfg)
+                   budget_s=None, kit=None):
+    """-> (merged Explorer, racy set, wall seconds)"""
+    kit = kit or POOL_KIT
+    driver = kit.make_driver(cfg)
+    judge = kit.judge
+    observation = kit.observation
     pin_self()
     racy = set()
     t0 = time.time()
@@ -348,22 +361,32 @@ def explore_config(cfg, pbound, ebound=0, want_frontier=None, max_execs=None, us
     return ex, racy, time.time() - t0
 
 
-def required_unreached(cfg):
+def required_unreached(cfg, kit):
     """source patterns the driver declares it must reach, present in the source but never executed"""
-    lines = vmp.source_lines(SRC)
-    path = vmp.source_path(SRC)
     missing = []
     for pat in cfg.required:
-        nos = [i + 1 for i, l in enumerate(lines) if re.search(pat, l)]
-        if nos and not any((path, n) in vmp.COVERED for n in nos):
+        found = reached = False
+        for src in kit.src:
+            lines = vmp.source_lines(src)
+            path = vmp.source_path(src)
+            nos = [i + 1 for i, l in enumerate(lines) if re.search(pat, l)]
+            if nos:
+                found = True
+                if any((path, n) in vmp.COVERED for n in nos):
+                    reached = True
+        if found and not reached:
             missing.append(pat)
     return missing
 
 
-def run_pool_check(report, prop, plan):
+POOL_KIT = Kit(make_driver, judge, observation, SRC)
+
+
+def run_pool_check(report, prop, plan, kit=None, what="own_proc_pools.py"):
+    kit = kit or POOL_KIT
     """plan: list of (Config, preemption bound or None, env bound, max_execs or None)"""
     report.rule("one evaluation = one complete schedule (maximal execution) of a driver over the real "
-                "own_proc_pools.py under the controlled scheduler, judged by the oracle of this property; states = "
+                + what + " under the controlled scheduler, judged by the oracle of this property; states = "
                 "distinct happens-before fingerprints at choice points; non-trivial = distinct terminal observations "
                 "(outcome, values yielded per call, blocked set) summed over drivers")
     report.assume("virtual threading/multiprocessing layer conforms to the real one (conformance/primitives.py)")
@@ -379,7 +402,7 @@ def run_pool_check(report, prop, plan):
         last = None
         t0 = time.time()
         for b in bounds:
-            ex, racy, wall = explore_config(cfg, b, ebound, max_execs=max_execs)
+            ex, racy, wall = explore_config(cfg, b, ebound, max_execs=max_execs, kit=kit)
             last = ex
             for key, (item, rep, cnt) in ex.violations.items():
                 p, sig, what, extra = item
@@ -400,7 +423,7 @@ def run_pool_check(report, prop, plan):
         for key, (item, rep, cnt) in ex.violations.items():
             if item[0] != prop:
                 other[item[0]] = other.get(item[0], 0) + cnt
-        missing = required_unreached(cfg)
+        missing = required_unreached(cfg, kit)
         report.part(cfg.name, states=max(1, total["hb_states"]), transitions=total["transitions"],
                     traces_validated_against_impl=total["complete"], evaluations=total["complete"],
                     executions=total["executions"], cut_by_hb_cache=total["cut"],
@@ -416,7 +439,7 @@ def run_pool_check(report, prop, plan):
             report.nontrivial((cfg.name, o))
         for smp in ex.samples[:2]:
             report.sample({"driver": cfg.name, **smp})
-        if len(ex.observations) <= 1 and total["complete"] > 50 and cfg.workers > 1:
+        if len(ex.observations) <= 1 and total["complete"] > 50 and getattr(cfg, "workers", 1) > 1:
             report.add(possibly_vacuous_drivers=1)
 
 
